@@ -574,9 +574,10 @@ func c09PanicSources(c *Ctx, rule string) {
 						if f.Name == "sql.(*TokenList).Advance" && y.Tok == token.INC {
 							g := f.Graph()
 							if loc, ok := g.Locate(y); ok {
+								r := recvName(f)
 								okG = dominatedByReturnGuard(f, g, loc, func(cond ast.Expr) bool {
 									s := exprKey(cond)
-									return s == "tl.cur==len(tl.tokens)" || s == "tl.cur>=len(tl.tokens)"
+									return s == r+".cur==len("+r+".tokens)" || s == r+".cur>=len("+r+".tokens)"
 								})
 							}
 						}
